@@ -375,7 +375,7 @@ func (s *seqState) applySeq(op *Op, res *Result) {
 		expectLoads = s.applyBulkRefresh(op, res, loads)
 	case "all", "keys", "values", "hottest", "coldest":
 		unexpectedPanic()
-		if op.D2 > 0 && len(res.Entries) >= 1 {
+		if (op.D2 > 0 || op.V != 0) && len(res.Entries) >= 1 {
 			s.cmpIterMid(op, res)
 		} else {
 			s.cmpIter(op, res)
@@ -617,30 +617,49 @@ func (s *seqState) cmpIter(op *Op, res *Result) {
 	}
 }
 
-// cmpIterMid: the caller's loop body moved the clock by op.D2 after the first element. The first
-// element is judged at the clock the iteration started with, every later element at the later
+// cmpIterMid: after the first element the caller's loop body wrote to the cache (op.V != 0: Set(op.K,
+// op.V)) and / or moved the clock by op.D2. The first element is judged against the state and clock
+// the iteration started with, every later element against the state after that write at the later
 // clock: an entry whose deadline has been reached by then must not be yielded any more (C03's
-// "iterates over it"), every entry still visible must be (unless the caller stopped early).
+// "iterates over it"), every entry that was present before and is still visible must be (C15: a key
+// whose value was only replaced is present for the whole traversal), unless the caller stopped early.
+// For the rewritten key the traversal may show the new value or - weakly consistent - the replaced
+// one as long as that one's own deadline has not been reached; a key the loop body inserted may or
+// may not be shown.
 func (s *seqState) cmpIterMid(op *Op, res *Result) {
 	m := s.m
-	m.Probes["iterator-clock-moved-mid-iteration"]++
 	props := P("C01", "C15")
 	if op.Kind == "hottest" || op.Kind == "coldest" {
 		props = P("C01", "C05")
+	}
+	nested := op.V != 0
+	var oldE *mEntry
+	after := m
+	if nested {
+		m.Probes["iterator-loop-body-wrote"]++
+		if e := m.visible(op.K); e != nil {
+			c := *e
+			oldE = &c
+		}
+	}
+	valKey := map[int]int{}
+	for _, k := range sortedKeys(m.m) {
+		valKey[m.m[k].V] = k
+	}
+	if nested {
+		valKey[op.V] = op.K
 	}
 	keyOf := func(e EntryView) int {
 		if op.Kind != "values" {
 			return e.K
 		}
-		for _, k := range sortedKeys(m.m) {
-			if m.m[k].V == e.V {
-				return k
-			}
+		if k, ok := valKey[e.V]; ok {
+			return k
 		}
 		return -1
 	}
 	leak := func(k int) []string {
-		if k >= 0 && m.expiredUnswept(k) != nil {
+		if k >= 0 && after.expiredUnswept(k) != nil {
 			return withProp(props, "C03")
 		}
 		return props
@@ -650,38 +669,75 @@ func (s *seqState) cmpIterMid(op *Op, res *Result) {
 	if fk < 0 || m.visible(fk) == nil {
 		m.fail(leak(fk), "iter."+op.Kind+"-extra", fk, "%s yielded %+v first, which the model does not hold", op.Kind, first)
 	}
-	m.now = satAdd(m.now, op.D2)
-	want := map[int]bool{}
-	for _, k := range m.visibleKeys() {
-		if k != fk {
-			want[k] = true
+	if nested {
+		// the write is committed to the model when its deletion event is matched (matchEvents); the
+		// later elements are judged against a preview of the model after it
+		s.pending = append(s.pending, &subOp{now: m.now, k: op.K, v: op.V, kind: "set"})
+		clone := *m
+		clone.m = map[int]*mEntry{}
+		for k, e := range m.m {
+			c := *e
+			clone.m[k] = &c
 		}
+		clone.Probes, clone.viol = map[string]int{}, nil
+		clone.write(op.K, op.V, "set")
+		after = &clone
+	}
+	if op.D2 > 0 {
+		m.Probes["iterator-clock-moved-mid-iteration"]++
+	}
+	m.now = satAdd(m.now, op.D2)
+	after.now = m.now
+	must := map[int]bool{}
+	optional := map[int]bool{}
+	for _, k := range after.visibleKeys() {
+		if k == fk {
+			continue
+		}
+		if nested && k == op.K && oldE == nil {
+			optional[k] = true // inserted by the loop body
+			continue
+		}
+		must[k] = true
+	}
+	oldStillValid := oldE != nil && (oldE.ExpNever || oldE.Exp > m.now)
+	if nested && op.K != fk && oldStillValid && !must[op.K] {
+		optional[op.K] = true // the new value is already expired, the replaced one is not: may be shown
 	}
 	seen := map[int]int{fk: 1}
 	for _, e := range res.Entries[1:] {
 		k := keyOf(e)
 		seen[k]++
-		if k < 0 || !want[k] || seen[k] > 1 {
-			m.fail(leak(k), "iter."+op.Kind+"-extra", k, "%s yielded %+v (x%d) after the loop body had moved the clock by %d; the model does not hold it at that time", op.Kind, e, seen[k], op.D2)
+		if k < 0 || !(must[k] || optional[k]) || seen[k] > 1 {
+			m.fail(leak(k), "iter."+op.Kind+"-extra", k, "%s yielded %+v (x%d) after the loop body had run (set %d:%d, clock +%d); the model does not hold it at that time", op.Kind, e, seen[k], op.K, op.V, op.D2)
 			continue
 		}
-		if op.Kind == "all" && e.V != m.m[k].V {
-			m.fail(props, "iter.all-value", k, "All yielded %d=%d, model %d", k, e.V, m.m[k].V)
+		if op.Kind == "all" || op.Kind == "values" {
+			okV := after.visible(k) != nil && e.V == after.m[k].V
+			if nested && k == op.K && oldStillValid && e.V == oldE.V {
+				okV = true
+			}
+			if !okV {
+				m.fail(leak(k), "iter."+op.Kind+"-value", k, "%s yielded %d=%d after the loop body had run, model %+v", op.Kind, k, e.V, after.m[k])
+			}
 		}
 	}
 	if op.D > 0 {
-		n := 1 + len(want)
-		if int(op.D) < n {
-			n = int(op.D)
+		lo, hi := 1+len(must), 1+len(must)+len(optional)
+		if int(op.D) < lo {
+			lo = int(op.D)
 		}
-		if len(res.Entries) != n {
-			m.fail(props, "iter."+op.Kind+"-count", -1, "%s with early exit after %d and a clock step after the first element yielded %d entries, expected %d", op.Kind, op.D, len(res.Entries), n)
+		if int(op.D) < hi {
+			hi = int(op.D)
+		}
+		if len(res.Entries) < lo || len(res.Entries) > hi {
+			m.fail(props, "iter."+op.Kind+"-count", -1, "%s with early exit after %d and a loop body that ran after the first element yielded %d entries, expected %d..%d", op.Kind, op.D, len(res.Entries), lo, hi)
 		}
 		return
 	}
-	for _, k := range sortedKeys(want) {
+	for _, k := range sortedKeys(must) {
 		if seen[k] != 1 {
-			m.fail(props, "iter."+op.Kind+"-missing", k, "%s yielded key %d %d times after the clock step, the model still holds it", op.Kind, k, seen[k])
+			m.fail(props, "iter."+op.Kind+"-missing", k, "%s yielded key %d %d times after the loop body had run (set %d:%d, clock +%d), the model holds it throughout", op.Kind, k, seen[k], op.K, op.V, op.D2)
 		}
 	}
 }
